@@ -93,6 +93,10 @@ def toIsoDuration(secs: float | str | datetime.timedelta) -> str:
         secs = secs.total_seconds()
     milli_secs = int((secs - math.floor(secs)) * 1000 + 0.5)
     secs = int(math.floor(secs))
+    if milli_secs >= 1000:
+        # rounding carries into the seconds field
+        milli_secs -= 1000
+        secs += 1
     hrs = secs // 3600
     rv = ['PT']
     secs %= 3600
@@ -196,10 +200,10 @@ def from_isodatetime(date_time: str | None):
                 kwargs[key] = parse_timezone(value)
             elif key == 'second':
                 if '.' in value:
-                    secs = float(value)
-                    kwargs[key] = int(secs)
-                    secs -= int(secs)
-                    kwargs['microsecond'] = int(1000000.0 * secs)
+                    whole, frac = value.split('.', 1)
+                    kwargs[key] = int(whole, 10)
+                    # avoid float rounding: use the first six fractional digits
+                    kwargs['microsecond'] = int((frac + '000000')[:6], 10)
                 else:
                     kwargs[key] = int(value, 10)
             else:
